@@ -63,8 +63,10 @@ RULE = ('cases: (a) sections of 1..8 entries over {.debug_frame v1/3/4, DWARF32/
         'different contents, descriptor names real/None/empty/equal/swapped, histories of 2-3 calls of CFI_entries and '
         'EH_CFI_entries in both orders; (f) instruction lists / tables with the optional vendor opcodes 0x1d 0x2c 0x2f, in '
         'domain iff the live _OPCODE_NAME_MAP names them; every stream handed to the library is of a kind drawn from '
-        'tools/lib/streams.py (bytesio, file, file_warm, file_end, file_small, mmap, gzip, decoy_fd); all section cases run '
-        'in one process as a history: the previous case\'s objects are dropped and gc.collect()ed before the next one '
+        'tools/lib/streams.py (bytesio, file, file_warm, file_end, file_small, mmap, gzip, decoy_fd); (g) forced .eh_frame '
+        'sections whose CIE / FDE carries 64 KiB+, 1 MiB and 1 MiB + 1 bytes of augmentation data (bytes and expectation '
+        'from a fixed-shape harness-side encoder, beyond the extracted model\'s reach); all section cases run in one '
+        'process as a history: the previous case\'s objects are dropped and gc.collect()ed before the next one '
         '(other address size / byte order / format). distinct = hash(kind, abstract); non-trivial = a section with >= 2 entries '
         'or an instruction list with >= 2 instructions')
 
@@ -554,6 +556,11 @@ def gen(ctx):
         d.append([STREAM_KINDS[i % len(STREAM_KINDS)], STREAM_KINDS[(i // len(STREAM_KINDS)) % len(STREAM_KINDS)]]
                  if i < 24 else [draw_kind(rng, 0.7), draw_kind(rng, 0.7)])
         cases.append(('dwarfinfo', d))
+    # forced big cases: 'z' augmentation data far longer than the fields the augmentation string names (the length
+    # exists so that readers can skip what they do not know): 64 KiB+, exactly 1 MiB, 1 MiB + 1, in a CIE or an FDE
+    for where, n in [('fde', 2 ** 20 + 1), ('cie', 2 ** 20 + 1), ('fde', 2 ** 20), ('cie', 70001)]:
+        cases.append(('bigaug', [where, n, rng.random() < 0.7, rng.choice([4, 8]), rng.getrandbits(32),
+                                 rng.choice(['bytesio', 'file', 'mmap'])]))
     # out of domain: damaged sections (model drift only)
     for _ in range(ctx.scale(150, 3000)):
         cases.append(('damaged', [gen_section(rng, small=True) + [draw_kind(rng, 0.7)], rng.choice(['trunc', 'flip', 'flip', 'extend']),
@@ -732,6 +739,48 @@ def impl_instrs(data, le, asize, S=None, skind='bytesio'):
     return ['ok', [_instrs(r), stream.tell()]]
 
 
+# ------------------------------------------------------------------ big augmentation data (harness-side, fixed shape)
+def build_bigaug(where, n, le, asize, seed):
+    """An .eh_frame [CIE v1 "zR" (R = udata4, absolute); FDE; ZERO] whose CIE or FDE carries n extra bytes of
+    augmentation data after the fields its augmentation string names.  Too big for the extracted model (byte lists),
+    so the bytes and the expected entries are written here directly from the layout the theorems are about:
+    augmentation_bytes = the declared bytes, instructions = what follows them.  -> (bytes, expected entries)"""
+    import random, struct
+    e = '<' if le else '>'
+    pad = random.Random(seed).randbytes(n)
+    pc, pf = (pad, b'') if where == 'cie' else (b'', pad)
+    cie_aug = b'\x03' + pc
+    cie_body = (struct.pack(e + 'I', 0) + b'\x01' + b'zR\x00' + b'\x01' + b'\x78' + b'\x10'
+                + uleb(len(cie_aug))[1] + cie_aug + b'\x0c\x07\x08\x00')
+    cie = struct.pack(e + 'I', len(cie_body)) + cie_body
+    off = len(cie)
+    loc, rng_ = 0x401000, 0x40
+    fde_body = (struct.pack(e + 'III', off + 4, loc, rng_) + uleb(len(pf))[1] + pf + b'\x41\x0e\x10')
+    fde = struct.pack(e + 'I', len(fde_body)) + fde_body
+    data = cie + fde + b'\x00\x00\x00\x00'
+    st = [int(bool(le)), 32, asize]
+    x_cie = ['CIE', 0, [len(cie_body), 0, 1, b'zR', 'none', 'none', 1, -8, 16], cie_aug,
+             [len(cie_aug), 'none', 3, 'none', 0], [[12, [7, 8]], [0, []]], st]
+    x_fde = ['FDE', off, [len(fde_body), off + 4, loc, rng_], pf, 'none', [[65, [1]], [14, [16]]], st, x_cie]
+    return data, ['ok', [[x_cie, 'none'], [x_fde, 0], [['ZERO', off + len(fde)], 'none']]]
+
+
+def _digest_aug(r):
+    """replace the augmentation bytes of an observed/expected entries result by (length, digest)"""
+    import hashlib
+
+    def ent(x):
+        if isinstance(x, list) and x and x[0] in ('CIE', 'FDE') and len(x) > 3 and isinstance(x[3], (bytes, bytearray)):
+            x = list(x)
+            x[3] = [len(x[3]), hashlib.sha256(bytes(x[3])).hexdigest()]
+            if x[0] == 'FDE' and len(x) > 7:
+                x[7] = ent(x[7])
+        return x
+    if isinstance(r, list) and len(r) == 2 and r[0] == 'ok':
+        return ['ok', [[ent(p[0]), p[1]] for p in r[1]]]
+    return r
+
+
 # ------------------------------------------------------------------ canonical forms of driver output
 def _sort_table(t):
     """t = [rows, reg_order] as printed by the driver: sort the register rules of every row"""
@@ -821,6 +870,8 @@ def _evaluate(ctx, cases, S):
             reqs.append(['table'] + list(a))
         elif kind == 'dwarfinfo':
             reqs.append(['dwarfinfo', a[0][:5], a[1][:5], a[2], a[3], a[4]])
+        elif kind == 'bigaug':
+            reqs.append(['instrs', 1, 4, []])          # placeholder: the driver is not asked about these
         else:
             raise ValueError(kind)
     answers = drv.batch(reqs)
@@ -918,6 +969,17 @@ def _evaluate(ctx, cases, S):
             ctx.bump('instr_list_len', min(len(a[2]) // 10 * 10, 60))
             ctx.record(kind, a, impl=impl, spec=s_split, model=m_split, in_domain=bool(wf),
                        nontrivial=len(a[2]) >= 2, key='instrs/split')
+        elif kind == 'bigaug':
+            where, n, le, asize, seed = a[:5]
+            skind = a[5] if len(a) > 5 else 'bytesio'
+            data, expected = build_bigaug(where, n, le, asize, seed)
+            impl = _digest_aug(impl_section(data, 1, le, asize, 0x400000, S, skind)[0])
+            S.drop_files()
+            ctx.bump('kind', 'bigaug-' + where)
+            ctx.bump('augmentation_data_len', '>1MiB' if n > 2 ** 20 else ('1MiB' if n == 2 ** 20 else '64KiB+'))
+            ctx.bump('stream_kind', skind)
+            ctx.record(kind, a, impl=impl, spec=_digest_aug(expected), model=None, in_domain=True, nontrivial=True,
+                       key='entries/eh_frame/big-augmentation-data')
         elif kind == 'vendor-instrs':
             data, wf, m_split, s_split = ans
             skind = a[3] if len(a) > 3 else 'bytesio'
